@@ -146,6 +146,11 @@ class CallsMixin:
             except SpecError as ex:
                 cx.stale(name, str(ex))
                 continue
+            if c.label == 'nopanic' and cx.contract.may_panic:
+                # a panic guard of the callee: where it fails the callee panics, which a may-panic
+                # function is allowed to do; the rest of the path has it
+                st.assume(g)
+                continue
             cx.prove(st, g, name, 'call-requires', ins.get('pos'), c.text, assume_after=True)
         old = st.copy()
         # frame: havoc what the callee may modify
